@@ -61,5 +61,5 @@ SPEC = dict(
                'power of two up to 2^16 (quick) / 2^20 (thorough) with a heap model, dense complete-state checkpoints at 2^k-2..2^k+2 and junk-filled fresh storage. '
                'Histories are unbounded; seeded sampling with boundary targeting is the reachable level.',
     level_note='trusted: harness byte model, libc snprintf; a_utf_encode (judged separately by C18) provides the expected bytes of a_utf_catc',
-    technique='seeded operation histories against a byte-vector model, libc formatter oracle, ASan red zones at the capacity boundary',
+    technique='seeded operation histories (small, and large through 2^16..2^20 bytes) against a byte-vector model with an independent UTF-8 encoder, libc formatter oracle, operands aliasing the own storage, ledger allocator for capacities near SIZE_MAX, ASan/LeakSanitizer red zones at the capacity boundary',
 )
